@@ -599,23 +599,45 @@ theorem extractKey_eq_rfc (c : Ctx) (b : Mem) (T : Nat) (hT : 1 ≤ T)
 section
 open XC.C15.Rfc
 
-theorem G_comm (x y : Block) : G x y = G y x := by
-  unfold G; rw [xorB_comm]
+theorem G_comm (x y : Block) : Rfc.G x y = Rfc.G y x := by
+  show xorB (applyCols (applyRows (xorB x y))) (xorB x y) = xorB (applyCols (applyRows (xorB y x))) (xorB y x)
+  rw [xorB_comm x y]
 
 theorem zeroBlock_eq : zeroBlock = zeroB := rfl
 
 /-- `in[6]++; processBlock(&addresses, &in, &zero); processBlock(&addresses, &addresses, &zero)` is
     G(ZERO, G(ZERO, Z)) for the input block with its counter word incremented -/
 theorem nextAddresses_eq_rfc (inp : Block) :
-    (nextAddresses inp).2 = G zeroB (G zeroB (inp.setIfInBounds 6 (inp.getD 6 0 + 1))) ∧
+    (nextAddresses inp).2 = Rfc.G zeroB (Rfc.G zeroB (inp.setIfInBounds 6 (inp.getD 6 0 + 1))) ∧
     (nextAddresses inp).1 = inp.setIfInBounds 6 (inp.getD 6 0 + 1) := by
-  unfold nextAddresses
-  simp only []
+  refine ⟨?_, rfl⟩
+  show processBlock (processBlock (inp.setIfInBounds 6 (inp.getD 6 0 + 1)) zeroBlock) zeroBlock = _
   rw [processBlock_eq_G, processBlock_eq_G, zeroBlock_eq, G_comm _ zeroB, G_comm _ zeroB]
-  exact ⟨rfl, rfl⟩
 
 theorem getD_setB (a : Block) (i j : Nat) (v : UInt64) (hi : i < a.size) :
     (a.setIfInBounds i v).getD j 0 = if j = i then v else a.getD j 0 := getD_set a i j v hi
+
+theorem addrInput_getD (r l sl m' t y i j : Nat) (hj : j < 128) :
+    (addrInput r l sl m' t y i).getD j 0 =
+      if j = 0 then UInt64.ofNat r else if j = 1 then UInt64.ofNat l else if j = 2 then UInt64.ofNat sl
+      else if j = 3 then UInt64.ofNat m' else if j = 4 then UInt64.ofNat t else if j = 5 then UInt64.ofNat y
+      else if j = 6 then UInt64.ofNat i else 0 := by
+  unfold addrInput
+  rw [ofFn_getD _ j hj]
+  have : j = 0 ∨ j = 1 ∨ j = 2 ∨ j = 3 ∨ j = 4 ∨ j = 5 ∨ j = 6 ∨ 7 ≤ j := by omega
+  rcases this with rfl | rfl | rfl | rfl | rfl | rfl | rfl | h7
+  · rfl
+  · rfl
+  · rfl
+  · rfl
+  · rfl
+  · rfl
+  · rfl
+  · obtain ⟨k, rfl⟩ : ∃ k, j = k + 7 := ⟨j - 7, by omega⟩
+    ite_omega
+    rfl
+
+theorem addrInput_size (r l sl m' t y i : Nat) : (addrInput r l sl m' t y i).size = 128 := by simp [addrInput]
 
 /-- the `in` block processSegment builds is Z of §3.4.1.2 with counter i = 0 … -/
 theorem addrInput_init (n lane slice memory time : UInt32) (mode : Nat) :
@@ -623,49 +645,67 @@ theorem addrInput_init (n lane slice memory time : UInt32) (mode : Nat) :
         memory.toUInt64).setIfInBounds 4 time.toUInt64).setIfInBounds 5 (UInt64.ofNat mode) =
       addrInput n.toNat lane.toNat slice.toNat memory.toNat time.toNat mode 0 := by
   have hz : zeroBlock.size = 128 := by simp [zeroBlock]
-  have hzg : ∀ j, zeroBlock.getD j 0 = 0 := by
-    intro j; simp [zeroBlock, Array.getD]; split <;> simp
+  have hzg : ∀ j, j < 128 → zeroBlock.getD j 0 = 0 := by
+    intro j hj; simp [zeroBlock, Array.getD, hj]
   have cv : ∀ x : UInt32, x.toUInt64 = UInt64.ofNat x.toNat := by
-    intro x; apply UInt64.toNat_inj.mp; simp [UInt32.toNat_toUInt64, UInt64.toNat_ofNat']
+    intro x; apply UInt64.toNat_inj.mp
+    rw [UInt32.toNat_toUInt64, UInt64.toNat_ofNat']
     have := x.toNat_lt; omega
-  apply block_ext _ _ (by simp [zeroBlock]) (by simp [addrInput])
+  apply block_ext _ _ (by simp [hz]) (addrInput_size _ _ _ _ _ _ _)
   intro j hj
-  rw [getD_setB _ _ _ _ (by simp [zeroBlock]), getD_setB _ _ _ _ (by simp [zeroBlock]),
-    getD_setB _ _ _ _ (by simp [zeroBlock]), getD_setB _ _ _ _ (by simp [zeroBlock]),
-    getD_setB _ _ _ _ (by simp [zeroBlock]), getD_setB _ _ _ _ (by simp [zeroBlock]), hzg]
-  unfold addrInput
-  rw [ofFn_getD _ j hj]
+  rw [getD_setB _ _ _ _ (by simp [hz]), getD_setB _ _ _ _ (by simp [hz]),
+    getD_setB _ _ _ _ (by simp [hz]), getD_setB _ _ _ _ (by simp [hz]),
+    getD_setB _ _ _ _ (by simp [hz]), getD_setB _ _ _ _ (by simp [hz]), hzg j hj, addrInput_getD _ _ _ _ _ _ _ _ hj]
   simp only [cv]
-  have : j = 0 ∨ j = 1 ∨ j = 2 ∨ j = 3 ∨ j = 4 ∨ j = 5 ∨ j = 6 ∨ 7 ≤ j := by omega
-  rcases this with rfl | rfl | rfl | rfl | rfl | rfl | rfl | h7
-  all_goals (try simp)
-  · obtain ⟨k, rfl⟩ : ∃ k, j = k + 7 := ⟨j - 7, by omega⟩
-    simp
+  have : j = 0 ∨ j = 1 ∨ j = 2 ∨ j = 3 ∨ j = 4 ∨ j = 5 ∨ 6 ≤ j := by omega
+  rcases this with rfl | rfl | rfl | rfl | rfl | rfl | h6
+  · rfl
+  · rfl
+  · rfl
+  · rfl
+  · rfl
+  · rfl
+  · ite_omega
+    by_cases h : j = 6
+    · subst h; rfl
+    · ite_omega
 
 /-- … and `in[6]++` turns counter i into i + 1 -/
 theorem addrInput_succ (r l sl m' t y i : Nat) :
     (addrInput r l sl m' t y i).setIfInBounds 6 ((addrInput r l sl m' t y i).getD 6 0 + 1) =
       addrInput r l sl m' t y (i + 1) := by
-  apply block_ext _ _ (by simp [addrInput]) (by simp [addrInput])
+  apply block_ext _ _ (by simp [addrInput_size]) (addrInput_size _ _ _ _ _ _ _)
   intro j hj
-  rw [getD_setB _ _ _ _ (by simp [addrInput])]
-  unfold addrInput
-  rw [ofFn_getD _ j hj, ofFn_getD _ 6 (by omega)]
+  rw [getD_setB _ _ _ _ (by rw [addrInput_size]; omega), addrInput_getD _ _ _ _ _ _ _ 6 (by omega),
+    addrInput_getD _ _ _ _ _ _ _ j hj, addrInput_getD _ _ _ _ _ _ _ j hj]
   by_cases h6 : j = 6
-  · subst h6; simp [UInt64.ofNat_add]
-  · rw [if_neg h6, ofFn_getD _ j hj]
+  · subst h6
+    ite_omega
+    apply UInt64.toNat_inj.mp
+    rw [UInt64.toNat_add, UInt64.toNat_ofNat', UInt64.toNat_ofNat']
+    show (i % 2 ^ 64 + 1) % 2 ^ 64 = (i + 1) % 2 ^ 64
+    omega
+  · rw [if_neg h6]
     have : j = 0 ∨ j = 1 ∨ j = 2 ∨ j = 3 ∨ j = 4 ∨ j = 5 ∨ 7 ≤ j := by omega
     rcases this with rfl | rfl | rfl | rfl | rfl | rfl | h7
-    all_goals (try simp)
-    · obtain ⟨k, rfl⟩ : ∃ k, j = k + 7 := ⟨j - 7, by omega⟩
-      simp
+    · rfl
+    · rfl
+    · rfl
+    · rfl
+    · rfl
+    · rfl
+    · ite_omega
 
 /-- hence the address block generated for counter i is `addrBlock … i` of the RFC -/
 theorem nextAddresses_addrBlock (r l sl m' t y i : Nat) :
     nextAddresses (addrInput r l sl m' t y i) = (addrInput r l sl m' t y (i + 1), addrBlock r l sl m' t y (i + 1)) := by
   obtain ⟨h1, h2⟩ := nextAddresses_eq_rfc (addrInput r l sl m' t y i)
   rw [addrInput_succ] at h1 h2
-  exact Prod.ext h2 h1
+  generalize nextAddresses (addrInput r l sl m' t y i) = na at h1 h2
+  obtain ⟨a, b⟩ := na
+  simp only [] at h1 h2
+  subst h1 h2
+  rfl
 
 /-- **one iteration of the segment loop** (index < segments): the block at `offset` becomes
     `old ⊕ G(B[prev], B[ref])` — RFC 9106 §3.2 steps 5–6 (`newBlock`) — where `ref = indexAlpha(J1‖J2, …)`
@@ -685,7 +725,8 @@ theorem segmentLoop_step (c : Ctx) (n slice lane : UInt32) (fuel : Nat) (index o
        segmentLoop c n slice lane fuel (index + 1) (offset + 1) st.1 st.2
          (b.setIfInBounds offset.toNat
            (newBlock (b.getD offset.toNat zeroBlock) (b.getD prev.toNat zeroBlock) (b.getD ref.toNat zeroBlock)))) := by
-  simp only [segmentLoop, if_pos h]
+  conv => lhs; rw [segmentLoop]
+  rw [if_pos h]
   by_cases hd : dataIndep c n slice = true
   · simp only [hd, if_true]
     by_cases hi : (index % 128 == 0) = true
@@ -716,8 +757,8 @@ theorem prev_eq_rfc (c : Ctx) (slice lane index : UInt32)
     have hS0 : S = 0 := by rw [← hS, h2]; simp
     simp only [h1, h2, decide_true, Bool.and_true, if_true]
     rw [UInt32.toNat_add, UInt32.toNat_sub, one, ho, hS0, h1]
-    have e : (0 + 0 + c.lanes.toNat - 1) % c.lanes.toNat = c.lanes.toNat - 1 := by
-      rw [Nat.zero_add, Nat.zero_add]; exact Nat.mod_eq_of_lt (by omega)
+    have e : (c.lanes.toNat - 1) % c.lanes.toNat = c.lanes.toNat - 1 := Nat.mod_eq_of_lt (by omega)
+    simp only [Nat.zero_add, Nat.add_zero] at *
     rw [e]
     omega
   · have hne : ¬ (decide (index.toNat = 0) && decide (slice.toNat = 0)) = true := by
@@ -734,6 +775,111 @@ theorem prev_eq_rfc (c : Ctx) (slice lane index : UInt32)
       rw [this, Nat.add_mod_right, Nat.mod_eq_of_lt (by omega)]
     rw [e]
     omega
+
+end
+
+/-! ## the memory-filling loop against an RFC-shaped iteration (RFC 9106 §3.2 steps 5–6, §3.4) -/
+
+section
+open XC.C15.Rfc
+
+/-- an Argon2 instance after the memory rounding: p lanes of q = 4·seg blocks, t passes, m′ = p·q, type y -/
+structure Inst where
+  p : Nat
+  q : Nat
+  seg : Nat
+  t : Nat
+  m' : Nat
+  y : Nat
+
+/-- data-independent addressing: Argon2i always, Argon2id in the first two slices of the first pass -/
+def indep (I : Inst) (r s : Nat) : Bool := I.y == 1 || (I.y == 2 && r == 0 && s < 2)
+
+/-- the 64-bit value J1 ‖ J2 for block `idx` of segment (r, l, s): word `idx mod 128` of address block number
+    ⌊idx/128⌋ + 1 (§3.4.1.2), or the first 64 bits of the previous block (§3.4.1.1) -/
+def pseudoRand (I : Inst) (mem : Array Block) (r l s idx : Nat) : UInt64 :=
+  if indep I r s then (addrBlock r l s I.m' I.t I.y (idx / 128 + 1)).getD (idx % 128) 0
+  else (mem.getD (l * I.q + prevCol I.q (s * I.seg + idx)) zeroB).getD 0 0
+
+/-- §3.4.2: reference lane l′ = J2 mod p (the own lane in the first slice of the first pass) and the mapping
+    of J1 into the reference area; the result is the lane-major index of B[l′][z] -/
+def refPos (I : Inst) (r l s idx : Nat) (J : UInt64) : Nat :=
+  let l' := if r = 0 ∧ s = 0 then l else (J.toNat / 4294967296) % I.p
+  phiRFC (J.toNat % 4294967296) (refAreaRFC I.seg r s idx (decide (l = l'))) (startRFC I.seg r s) l' I.q
+
+/-- §3.2 steps 5–6 for block `idx` of segment (r, l, s) -/
+def stepRFC (I : Inst) (r l s : Nat) (mem : Array Block) (idx : Nat) : Array Block :=
+  let cur := l * I.q + (s * I.seg + idx)
+  let prev := l * I.q + prevCol I.q (s * I.seg + idx)
+  let ref := refPos I r l s idx (pseudoRand I mem r l s idx)
+  mem.setIfInBounds cur (newBlock (mem.getD cur zeroB) (mem.getD prev zeroB) (mem.getD ref zeroB))
+
+/-- one segment: its blocks in order; the first segment of a lane starts at block 2 (0 and 1 come from H0) -/
+def segmentRFC (I : Inst) (r l s : Nat) (mem : Array Block) : Array Block :=
+  let start := if r = 0 ∧ s = 0 then 2 else 0
+  (List.range' start (I.seg - start)).foldl (stepRFC I r l s) mem
+
+/-- passes, then the four slices, then the lanes of the slice (any order of the lanes gives the same memory in
+    the RFC — they are independent within a slice; this is the order the model runs them in) -/
+def fillRFC (I : Inst) (mem : Array Block) : Array Block :=
+  (List.range I.t).foldl (fun mem r =>
+    (List.range 4).foldl (fun mem s =>
+      (List.range I.p).foldl (fun mem l => segmentRFC I r l s mem) mem) mem) mem
+
+/-- the Go context `c` and loop variables (n, slice, lane) describe instance `I` at segment (r, l, s) -/
+structure CtxOK (c : Ctx) (I : Inst) (n slice lane : UInt32) (r l s : Nat) : Prop where
+  hq : c.lanes.toNat = I.q
+  hseg : c.segments.toNat = I.seg
+  hp : c.threads.toNat = I.p
+  hm : c.memory.toNat = I.m'
+  ht : c.time.toNat = I.t
+  hy : c.mode = I.y
+  q4 : I.q = 4 * I.seg
+  seg2 : 2 ≤ I.seg
+  mpq : I.m' = I.p * I.q
+  hn : n.toNat = r
+  hs : slice.toNat = s
+  s4 : s < 4
+  hl : lane.toNat = l
+  lp : l < I.p
+
+theorem dataIndep_eq (c : Ctx) (I : Inst) (n slice lane : UInt32) (r l s : Nat) (K : CtxOK c I n slice lane r l s) :
+    dataIndep c n slice = indep I r s := by
+  unfold dataIndep indep
+  rw [K.hy, beq_true_iff_32 n 0]
+  have z : (0 : UInt32).toNat = 0 := rfl
+  have two : (2 : UInt32).toNat = 2 := rfl
+  have e1 : decide (slice < 2) = decide (s < 2) := by
+    have : slice < 2 ↔ s < 2 := by rw [UInt32.lt_iff_toNat_lt, two, K.hs]
+    exact decide_eq_decide.mpr this
+  rw [z, K.hn, e1]
+  by_cases hr : r = 0 <;> simp [hr]
+
+theorem refLane_toNat (c : Ctx) (I : Inst) (n slice lane : UInt32) (r l s : Nat) (K : CtxOK c I n slice lane r l s)
+    (rand : UInt64) :
+    (refLaneOf rand c.threads n slice lane).toNat =
+      (if r = 0 ∧ s = 0 then l else (rand.toNat / 4294967296) % I.p) := by
+  unfold refLaneOf
+  rw [beq_true_iff_32 n 0, beq_true_iff_32 slice 0]
+  have z : (0 : UInt32).toNat = 0 := rfl
+  rw [z, K.hn, K.hs]
+  by_cases h : r = 0 ∧ s = 0
+  · obtain ⟨h1, h2⟩ := h
+    simp [h1, h2, K.hl]
+  · have : (decide (r = 0) && decide (s = 0)) = false := by
+      rcases Nat.eq_zero_or_pos r with hr | hr
+      · have : s ≠ 0 := fun e => h ⟨hr, e⟩
+        simp [this]
+      · have : r ≠ 0 := by omega
+        simp [this]
+    rw [this, if_neg h]
+    simp only [Bool.false_eq_true, if_false]
+    rw [UInt32.toNat_mod, UInt64.toNat_toUInt32, UInt64.toNat_shiftRight, K.hp, Nat.shiftRight_eq_div_pow]
+    have := rand.toNat_lt
+    have e : rand.toNat / 2 ^ (UInt64.toNat 32 % 64) = rand.toNat / 4294967296 := rfl
+    rw [e]
+    have : rand.toNat / 4294967296 % 2 ^ 32 = rand.toNat / 4294967296 := by omega
+    rw [this]
 
 end
 
